@@ -1006,7 +1006,7 @@ impl RLN {
     ///
     /// Input values are:
     /// - `input_data`: a reader for the serialization of the RLN zkSNARK proof concatenated with a serialization of the circuit output values and the signal information, i.e. `[ proof<128> | root<32> | external_nullifier<32> | x<32> | y<32> | nullifier<32> | signal_len<8> | signal<var>]`
-    /// - `roots_data`: a reader for the serialization of a vector of roots, i.e. `[ number_of_roots<8> | root_1<32> | ... | root_n<32> ]` (number_of_roots is an uint64 in little-endian, roots are serialized using `rln::utils::fr_to_bytes_le`)
+    /// - `roots_data`: a reader for the serialization of a vector of roots, i.e. `[ root_1<32> | ... | root_n<32> ]` (roots are serialized using `rln::utils::fr_to_bytes_le`, without a length prefix)
     ///
     /// The function returns true if the zkSNARK proof is valid with respect to the provided circuit output values, signal and roots. Returns false otherwise.
     ///
@@ -1105,6 +1105,11 @@ impl RLN {
 
         // We expect each root to be fr_byte_size() bytes long.
         let fr_size = fr_byte_size();
+        if roots_serialized.len() % fr_size != 0 {
+            return Err(Report::msg(
+                "roots data is not a sequence of serialized field elements",
+            ));
+        }
 
         // We read the buffer and convert to Fr as much as we can
         all_read = 0;
